@@ -362,6 +362,15 @@ func (w *World) runSchedule(cmds []ConcCmd, actions []SchedAction) schedRun {
 // lastLockAcquire returns the index (into the candidates of parkCandidatesEx) of the last
 // flock call that acquires a lock, or -1.
 func (w *World) parkCandidatesEx(op Op) (pts []Inject, lastAcquire int) {
+	pts, lastAcquire, _ = w.parkCandidatesGap(op)
+	return
+}
+
+// parkCandidatesGap also returns the index of the first unlock call (-1 if none): for a
+// command with more than one lock section the points from there to the last acquisition
+// are the gap between its sections.
+func (w *World) parkCandidatesGap(op Op) (pts []Inject, lastAcquire int, firstUnlock int) {
+	firstUnlock = -1
 	c := w.At(CloneStore(w.Root, "probe"))
 	defer RemoveAll(c.Root)
 	c.writeFiles(op.Files)
@@ -376,6 +385,9 @@ func (w *World) parkCandidatesEx(op Op) (pts []Inject, lastAcquire int) {
 		pts = append(pts, Inject{Syscall: call.Name, When: count[call.Name], Kind: "stop"})
 		if call.Name == "flock" && !strings.Contains(call.Args, "LOCK_UN") {
 			lastAcquire = len(pts) - 1
+		}
+		if call.Name == "flock" && strings.Contains(call.Args, "LOCK_UN") && firstUnlock < 0 {
+			firstUnlock = len(pts) - 1
 		}
 	}
 	return
